@@ -96,7 +96,8 @@ theorem unknown_fin_inert (s : Sess) (f : Frame) (hc : f.cmd = .fin)
   unfold Sess.handleFrame view
   simp only [hc]
   have hd : s.dropRecvEntry f.sid = s := by unfold Sess.dropRecvEntry; rw [h1]
-  rw [hd]
+  have hf : s.failPendingOpen f.sid = s := by unfold Sess.failPendingOpen; rw [h2]
+  rw [hd, hf]
   simp only [tblGet_remove]
   by_cases hk : k = f.sid
   · subst hk; simp [h1, h2]
